@@ -373,6 +373,9 @@ def r7(tree, rep, tier):
                           "with dilation active the wormhole can get stuck after close() (no path to closed): %s" % {k: v for k, v in ms.items() if k in ("Manager", "Terminator", "Boss")},
                           None, trace=p_)
         for v in s.viol:
+            if v["kind"] == "versions-not-forwarded":
+                rep.violation("C17.R7", "C17.R7:versions-not-forwarded", v["detail"] + " (pending and future connect() calls hang instead of "
+                              "failing with OldPeerCannotDilateError; environment %s)" % envname, v["site"], detail=" > ".join(v["stack"]), trace=v["path"])
             if v["kind"] in ("NoTransition", "no-instance") and (v["detail"].startswith("Manager") or v["detail"].startswith("Terminator")):
                 rep.violation("C17.R7", "C17.R7:%s:%s" % (v["kind"], v["detail"]), "%s is reachable with dilation active (close()/shutdown would fail)" % v["detail"],
                               v["site"], detail=" > ".join(v["stack"]), trace=v["path"])
@@ -450,6 +453,8 @@ def r10(tree, rep, tier):
 
 
 def run(tree, rep, tier):
+    from .. import sharedstate
+    sharedstate.check(tree, rep, "C17.R0")
     prog = Program(tree)
     r1_r2(prog, rep)
     r8(tree, prog, rep)
